@@ -38,7 +38,7 @@ def stepLine (st : JState) (line : String) : JState × String :=
   else
     let (lhs, rhs) := splitArrow line
     match st.engine with
-    | "world" =>
+    | "world" | "sched-reserve" =>
       -- (S) specification oracle on the implementation's own answer
       let (st, specMsg) : JState × Option String :=
         match rhs with
